@@ -36,7 +36,7 @@ VOCAB = [
     "s = 'abc&", "  &def'", "s = 'it''s'", "x = 2 ! c & d", "x = 3 ; y = 4", "call m()", "#ifdef A", "#else", "#endif", "#define Q 1",
     "!dir$ ivdep", "!$ x = 5", "x = 1 & ! c", "  ! c in continuation", "s = \"say \"\"hi\"\"\" // '!'", "x = Q", "#if defined(A) && \\",
     "    defined(C)", "s = 'back\\'", "s = '&' // \"&\"", "y = x & ! 'q", "  &   + 1 ! \"", "#undef Q",
-    "s = \"a & ! b\"", "! plain comment", "s = 'abc&  ", "&def' ! c",
+    "s = \"a & ! b\"", "! plain comment", "s = 'abc&  ", "&def' ! c", "&#9' ! c", "#else ! c", "#endif ! c",
 ]
 
 LITS = ["'a ! b'", "\"x & y\"", "'it''s'", "\"say \"\"hi\"\"\"", "'a // b'", "'!'", "'&'", "\"'\"", "'\"'", "'plain'", "\"#if 0\"", "'! &'",
@@ -65,7 +65,8 @@ def required_cells(tier):
     return ["comment", "comment-in-continuation", "blank-in-continuation", "continuation", "leading-&", "literal-continued",
             "doubled-quote", "special-char-in-literal", "sentinel", "directive", "comment-after-&", "selection-compared",
             "define-sets>=4", "class:E", "class:R", "include", "all-code-lines-compared", "directive-inside-continuation",
-            "comment-in-literal-continuation", "blank-in-literal-continuation", "nested-include"]
+            "comment-in-literal-continuation", "blank-in-literal-continuation", "nested-include",
+            "hash-first-in-literal-continuation", "comment-after-conditional-directive"]
 
 
 def gfortran(args, cwd):
@@ -110,17 +111,20 @@ def rand_body(rng, depth=0):
             out.append("s = 'abc&" + rng.choice(["", "", "  ", "\t"]))
             for _ in range(rng.choice([0, 0, 1, 2])):
                 out.append(rng.choice(["  ! comment between the halves", "", "! it's", "   "]))
-            out.append("   &def' // " + rng.choice(LITS))
+            # the second half may start with characters that mean something elsewhere: '#', '!', '&'
+            out.append(rng.choice(["   &def'", "   &def'", "   &#42 (gpu)'", "&#41 (cpu)'", "   & #7'", "   &!x'", "   &&'"]) + " // " + rng.choice(LITS))
         elif x < 0.9 and depth < 3:
             kind = rng.choice(["ifdef", "ifndef", "if", "if-else", "if-elif"])
             name = rng.choice(["A", "B", "C"])
+            # conditional directives may carry a trailing Fortran comment (traditional cpp ignores the extra tokens)
+            tc = (lambda: rng.choice(["", "", "", " ! " + name, " ! not " + name + "'s"]))
             if kind in ("ifdef", "ifndef"):
-                out.append(f"#{kind} {name}")
+                out.append(f"#{kind} {name}")         # (gfortran warns about extra tokens after #ifdef, not after #else / #endif)
                 out += rand_body(rng, depth + 1)
                 if rng.random() < 0.5:
-                    out.append("#else")
+                    out.append("#else" + tc())
                     out += rand_body(rng, depth + 1)
-                out.append("#endif")
+                out.append("#endif" + tc())
             else:
                 out.append("#if " + rng.choice([f"defined({name})", "B > 1", "defined(A) && !defined(C)", "B == 1 || defined(C)", "B"]))
                 out += rand_body(rng, depth + 1)
@@ -128,9 +132,9 @@ def rand_body(rng, depth=0):
                     out.append("#elif " + rng.choice(["defined(C)", "B == 2", "!defined(A)"]))
                     out += rand_body(rng, depth + 1)
                 if kind != "if" and rng.random() < 0.7:
-                    out.append("#else")
+                    out.append("#else" + rng.choice(["", "", " ! otherwise"]))
                     out += rand_body(rng, depth + 1)
-                out.append("#endif")
+                out.append("#endif" + rng.choice(["", "", " ! done"]))
         elif x < 0.95:
             out.append(rng.choice(["#define LOCAL 1", "#undef LOCAL", "#define A2", "x = 7"]))
         else:
@@ -186,6 +190,10 @@ def check_text(ctx, text, work, cls, defsets):
     cells = set(n for n in notes) | {"class:" + cls}
     if re.search(r"&[ \t]*(![^\n]*)?\n#", text):
         cells.add("directive-inside-continuation")
+    if re.search(r"^[ \t]*&[ \t]*#", text, re.M):
+        cells.add("hash-first-in-literal-continuation")
+    if re.search(r"^#(else|endif) !", text, re.M):
+        cells.add("comment-after-conditional-directive")
     problems = []
     try:
         tree = file_parser.FileParser(path).parse_file(summarize_only=False)
